@@ -436,6 +436,12 @@ impl Simulation for C13Sim {
       r.violation = Some((c2, d2, doc));
     }
     r.event_hash = fnv1a(ev.join("\n").as_bytes());
+    if std::env::var("AGSIM_DUMP_EVENTS").is_ok() {
+      eprintln!("EV {seed} canon-detail update={:?} after={:?} applied={:?} snaps={:016x} tree={:016x}", c.test_update, c.test_after, c.applied, fnv1a(format!("{:?}", c.snapshots).as_bytes()), fnv1a(format!("{:?}", c.fixed_tree).as_bytes()));
+      for e in &ev {
+        eprintln!("EV {seed} {e}");
+      }
+    }
     r
   }
   fn replay(&self, doc: &Value, _known: &KnownFindings) -> ReplayOutcome {
@@ -458,6 +464,9 @@ impl Simulation for C13Sim {
       Some((c, d)) => ReplayOutcome { reproduced: true, class: c, detail: d, event_hash: 0 },
       None => ReplayOutcome { reproduced: false, class: "".into(), detail: "both launches agree".into(), event_hash: 0 },
     }
+  }
+  fn warm_up(&self) {
+    crate::selftest::warm_up();
   }
   fn describe(&self) -> Describe {
     Describe {
